@@ -163,6 +163,15 @@ func workerHammer(holders, millis, seed int) string {
 			bad.Add(1)
 		}
 	}
+	// the stop channel is closed inside the Worker's mutex (hook worker.stopclosed): every Do that returned before that critical
+	// section has been waited for, so at that instant nobody may be between its Do and its done() — whether or not the function
+	// has already returned on its own
+	rmHook := hk.On(func(e hk.Event) {
+		if e.Name == "worker.stopclosed" && e.Obj == any(&w) && held.Load() > 0 {
+			bad.Add(1)
+		}
+	})
+	defer rmHook()
 	var wg sync.WaitGroup
 	deadline := time.Now().Add(time.Duration(millis) * time.Millisecond)
 	root := rng.New(uint64(seed), "worker-hammer")
